@@ -61,6 +61,30 @@ def parseIn : P (Nat × RawSym) := do
   let s ← P.rawSym
   pure (g, s)
 
+/-! ### comparison up to the freedom the property leaves
+
+For a D-set with non-trivial automorphisms the property fixes each emitted symbol only up to
+isomorphism (which branching assignment of an automorphism orbit is kept is not stated), and the
+emission order only through "numbered consecutively" (a Spec clause on the implementation's own
+order).  The model's sequence and the implementation's are therefore compared as multisets of
+isomorphism classes: same length, and a matching that pairs every model symbol with an isomorphic
+implementation symbol of the same curvature (greedy matching is complete because isomorphism is an
+equivalence).  When they agree the implementation's tokens are echoed as the model payload,
+otherwise the model's payload is printed and the orchestrator reports the disagreement. -/
+def matchUpToIso : List SpecC07.Emitted → List SpecC07.Emitted → Bool
+  | [], rest => rest.isEmpty
+  | m :: ms, impl =>
+    match impl.findIdx? (fun e => e.k.num == m.k.num && e.k.den == m.k.den && SpecC03.isomorphic m.sym e.sym) with
+    | some i => matchUpToIso ms (impl.eraseIdx i)
+    | none => false
+
+def isoEcho (model : String) (out : Array String) : String :=
+  let impl := joinToks out.toList
+  if model == impl then model else
+  match run parseOut (((model.splitOn " ").filter (· != "")).toArray), run parseOut out with
+  | some ml, some il => if ml.length == il.length && matchUpToIso ml il then impl else model
+  | _, _ => model
+
 def handler : Handler := fun op inp out =>
   let bad := ("-", fail "driver-cannot-parse-input")
   match op with
@@ -73,7 +97,7 @@ def handler : Handler := fun op inp out =>
         if out == #["PANIC"] then (m, fail "generator-panics")
         else
           match run parseOut out with
-          | some l => (m, check (SpecC07.clauses (specSym s) gi l))
+          | some l => (isoEcho m out, check (SpecC07.clauses (specSym s) gi l))
           | none => (m, fail "driver-cannot-parse-output")
       | none => bad
     | none => bad
